@@ -122,6 +122,9 @@ def scale_cases(n):
         ("c19.url many params", "c19.url\t%s" % hx(b"smtp://h.example?" + b"&".join(b"tls=required" for _ in range(max(1, n // 13))))),
         ("c19.date_parse long", "c19.date_parse\t%s" % hx(b"Tue, 15 Nov 1994 08:12:31 " + A(b"+"))),
         ("xtext", "xtext\t%s" % hx(A(b"+"))),
+        ("codec.encode dot lines", "codec.encode\t2\t%s" % hx((b".\r\n" * (n // 3 + 1))[:n])),
+        ("codec.encode dots", "codec.encode\t2\t%s" % hx(A(b"."))),
+        ("codec.encode text", "codec.encode\t2\t%s" % hx((b"some text line\r\n" * (n // 16 + 1))[:n])),
         ("hdr.cdisp long name", "hdr.cdisp\t%s\t%s" % (hx(b"attachment"), hx(("ü" * (n // 2)).encode()))),
     ]
     return cases
@@ -202,6 +205,34 @@ def run(ctx):
                     hits[cl] = hits.get(cl, 0) + 1
                 else:
                     obad.append((bname, "a multipart nested %d deep: %s" % (depth, "process died rc %s (stack overflow)" % rc if rc != 0 else o), "c19.nested\t%d" % depth))
+    # ---- C: hostile server replies at every step of a session, over TCP, sync and tokio clients
+    from smtp import step, run_scenarios
+    weird = ["250é\r\n", "25é ok\r\n", "2€ ok\r\n", "250\u00a0ok\r\n", "250—SIZE\r\n250 ok\r\n", "250-a\r\n250—b\r\n", "\u2028250 ok\r\n", "250\r\n", "250 \r\n", "2\r\n", "\r\n",
+             "250-\r\n250 \r\n", "999 x\r\n", "250 " + "é" * 300 + "\r\n", "250-" + "x" * 70000 + "\r\n250 ok\r\n", "25", "250 ok\n", "250 ok\r", "\x00\x00\x00\r\n", "250 \U0001f600\r\n", "²50 ok\r\n", "２５０ ok\r\n"]
+    weird_b = [w.encode("utf-8") for w in weird] + [b"250 \xff\xfe\r\n", b"250-\xc3\r\n250 ok\r\n", b"\xe2\x82"]
+    for _ in range(20 if ctx.tier == "quick" else 300):
+        weird_b.append(mutate(rng, rng.choice([b"250 ok\r\n", b"250-a\r\n250 b\r\n", b"354 go\r\n", b"220 srv ESMTP\r\n"])))
+    okr = {"greeting": b"220 srv\r\n", "ehlo": b"250-srv\r\n250 8BITMIME\r\n", "mail": b"250 ok\r\n", "rcpt": b"250 ok\r\n", "data": b"354 go\r\n", "eod": b"250 ok\r\n", "quit": b"221 bye\r\n"}
+    order = ["greeting", "ehlo", "mail", "rcpt", "data", "eod", "quit"]
+    rscs = []
+    for w in weird_b:
+        for pos in order[:-1]:
+            steps = []
+            for p in order:
+                wait = "none" if p == "greeting" else ("data" if p == "eod" else "line")
+                steps.append(step(wait, w if p == pos else okr[p], close=(p == pos and not w.endswith(b"\n"))))
+            for fl in ("sync", "tokio"):
+                rscs.append({"id": len(rscs), "flavor": fl, "timeout_ms": 400, "servers": [steps], "server_cap_ms": 1500, "hang_ms": 15000,
+                             "ops": [{"op": "connect", "hello": hx(b"c19.test")}, {"op": "send", "from": hx(b"a@x.org"), "to": [hx(b"b@y.org")], "msg": hx(b"hi\r\n")}, {"op": "quit"}], "w": hx(w), "pos": pos})
+    rres = run_scenarios(rscs)
+    for sc, r in zip(rscs, rres):
+        ctx.count(); ctx.cls("reply/" + sc["flavor"])
+        if r.get("results") in ("PANIC", "HANG") or "error" in r:
+            # the tokio client has no read deadline (F20): a reply cut short leaves it waiting; that is C20's finding
+            if r.get("results") == "HANG" and sc["flavor"] == "tokio":
+                continue
+            obad.append((sc["flavor"], "the client %s on the server reply %r at %s" % (r.get("results", r.get("error")), unhx(sc["w"])[:60], sc["pos"]), json.dumps({k: sc[k] for k in ("flavor", "servers", "ops", "timeout_ms")})[:5000]))
+    ctx.cov["oracle"]["hostile_replies_over_tcp"] = {"scenarios": len(rscs)}
     ctx.cov["oracle"]["hostile_inputs_and_scaling"] = {"hostile_lines": len(lines), "builds": [b for b, _ in builds], "scale_points": sum(len(v) for v in rows.values()), "failures": len(obad), "known_class_hits": hits,
                                                       "timings_s": table}
     ctx.cov["correspondence"]["note"] = "the tie of the client model to the code is C05/C14/C15's; C19 adds no correspondence of its own"
